@@ -10,11 +10,12 @@
   characters(data): if parse and not skip: self.data.append(data)                  `stepChars` (`data` is kept as the
                                                                                     concatenation `''.join(self.data)`)
   startElementNS(tag, qname, attrs):                                               `stepStart`
-     depth += 1; section = depth == 2 and tag in triggers      (repair @@HASH-A@@)    `isSection`: only the children of
+     depth += 1; section = depth == 2 and tag in triggers      (repair e0e65e8)    `isSection`: only the children of
      if section: parse = True                                                         the root element are sections
      if not parse: return
-     if skip or (style:font-face under doc.fontfacedecls whose style:name is          `fontDeclared`: office:font-face-decls
-         declared already): skip += 1; return                  (repair @@HASH-B@@)    is read from content.xml AND styles.xml
+     (at the start of an office:font-face-decls section: fonts = names declared so far)
+     if skip or (style:font-face under doc.fontfacedecls whose style:name is in       `fontDeclared`: office:font-face-decls
+         fonts): skip += 1; return                  (repair b40b9f8)    is read from content.xml AND styles.xml
      content = ''.join(data); if content: parent.addText(content); data = []           `addToParent` (`addText` skips '')
      e = Element(qname=tag, qattributes=attrs, check_grammar=False); curr = e          frame ⟨q, attrs, []⟩
      if tag is one of the eight section elements: e = the document's section object    `secOfTrigger`: the element just
@@ -188,6 +189,7 @@ structure St where
   spine : List Frame := []           -- open elements, innermost first
   depth : Int := 0                   -- `self.depth`: nesting depth of the current element, the root element is 1
   skip : Nat := 0                    -- `self.skip`: depth inside a font declaration that is skipped
+  fonts : List (Option Str) := []    -- `self.fonts`: the font names declared when the current office:font-face-decls began
   currDet : Bool := false            -- `curr` is the discarded element built for a section start tag
                                      -- (then `parent` is the section, spine = [])
 
@@ -302,23 +304,27 @@ def declaredNames : Forest → List (Option Str)
   | .cons (.elem _ a _) t => lookupA aStyleName a :: declaredNames t
   | .cons _ t => declaredNames t
 
-/-- (repair @@HASH-B@@) `tag == style:font-face and self.parent is self.doc.fontfacedecls and
-    attrs.get(style:name) in [names already declared]`: a font declaration that repeats a declared name -/
+/-- (repair b40b9f8) `tag == style:font-face and self.parent is self.doc.fontfacedecls and attrs.get(style:name) in
+    self.fonts`: a font declaration whose name a part read EARLIER has declared (`self.fonts` is taken once, when the
+    office:font-face-decls section starts; repeats inside one part are all kept) -/
 def fontDeclared (st : St) (q : QName) (attrs : List (QName × Str)) : Bool :=
   decide (q = qFontFaceEl) && st.spine.isEmpty && decide (st.root = .sec .fontFace) &&
-  (declaredNames st.doc.fontFace).contains (lookupA aStyleName attrs)
+  st.fonts.contains (lookupA aStyleName attrs)
 
 def stepStart (st : St) (q : QName) (attrs : List (QName × Str)) : Option St :=
   let d := st.depth + 1
-  -- (repair @@HASH-A@@) the sections are the children of the root element
+  -- (repair e0e65e8) the sections are the children of the root element
   let isSection := decide (d = 2) && isTrigger q
   let p1 := if isSection then true else st.parsing
+  -- `self.fonts = [names declared so far]` when an office:font-face-decls section starts
+  let fonts := if isSection && decide (q = qFontFace) then declaredNames st.doc.fontFace else st.fonts
   if !p1 then some { st with depth := d }
   else if st.skip != 0 || fontDeclared st q attrs then some { st with depth := d, parsing := true, skip := st.skip + 1 }
   else
     let flushed : Option St :=
-      if st.data.isEmpty then some { st with depth := d, parsing := true }
-      else (addToParent st (.cons (.text st.data) .nil)).map (fun s => { s with depth := d, data := [], parsing := true })
+      if st.data.isEmpty then some { st with depth := d, parsing := true, fonts := fonts }
+      else (addToParent st (.cons (.text st.data) .nil)).map
+        (fun s => { s with depth := d, data := [], parsing := true, fonts := fonts })
     match flushed with
     | none => none
     | some st1 =>
